@@ -1,3 +1,166 @@
 package main
 
-func c06Tie(r *Run) {}
+// C06, tie between the extracted table and the running code: the lock
+// operations the table predicts are looked for on the running library through
+// the runtime's mutex-contention profile (runtime.SetMutexProfileFraction(1)):
+// under a workload in which 16 goroutines call Submit and Send on one Conn,
+// every Unlock that made another goroutine wait is recorded by the runtime with
+// its stack.  The functions of go-smpp that called Unlock are compared with the
+// functions in which the table has an unlock node:
+//   - an observed unlocking function the table does not know  -> the extraction
+//     missed a lock operation: said in a note, and the static verdict is
+//     declared unreliable for this run (the dynamic evidence stands);
+//   - a predicted function not observed -> no contention there in this run
+//     (cannot be forced): said in a note, counted in the evidence.
+// This confirms the lock events per function, not per path: a finer tie would
+// need probes compiled into the library, which the rules of this tree exclude
+// (the library is tested unmodified).
+
+import (
+	"context"
+	"fmt"
+	"net"
+	"runtime"
+	"sort"
+	"strings"
+	"sync"
+	"sync/atomic"
+	"time"
+
+	smpp "github.com/M2MGateway/go-smpp"
+	"github.com/M2MGateway/go-smpp/pdu"
+)
+
+func baseFunc(fn string) string {
+	fn = strings.TrimPrefix(fn, libPrefix)
+	fn = strings.TrimPrefix(fn, ".")
+	if strings.HasPrefix(fn, "(") {
+		if i := strings.Index(fn, ")."); i >= 0 {
+			fn = fn[i+2:]
+		}
+	}
+	if i := strings.Index(fn, "."); i >= 0 {
+		fn = fn[:i]
+	}
+	return fn
+}
+
+func contentionWorkload(d time.Duration) (submits int32) {
+	cli, srv := net.Pipe()
+	var wmu sync.Mutex
+	go func() {
+		for {
+			p, err := pdu.ReadPDU(srv)
+			if err != nil && p == nil {
+				return
+			}
+			if rq, ok := p.(pdu.Responsable); ok {
+				resp := rq.Resp()
+				go func() {
+					wmu.Lock()
+					_ = srv.SetWriteDeadline(time.Now().Add(time.Second))
+					_, _ = pdu.Marshal(srv, resp)
+					wmu.Unlock()
+				}()
+			}
+		}
+	}()
+	conn := smpp.NewConn(context.Background(), cli)
+	conn.WriteTimeout, conn.ReadTimeout = 2*time.Second, 2*time.Second
+	go conn.Watch()
+	go func() {
+		for range conn.PDU() {
+		}
+	}()
+	until := time.Now().Add(d)
+	var wg sync.WaitGroup
+	var seq int32 = 1 << 28
+	for g := 0; g < 16; g++ {
+		wg.Add(1)
+		go func() {
+			defer wg.Done()
+			for time.Now().Before(until) {
+				ctx, cancel := context.WithTimeout(context.Background(), time.Second)
+				if _, err := conn.Submit(ctx, &pdu.EnquireLink{}); err == nil {
+					atomic.AddInt32(&submits, 1)
+				}
+				cancel()
+				_ = conn.Send(&pdu.DeliverSMResp{Header: pdu.Header{Sequence: atomic.AddInt32(&seq, 1)}})
+			}
+		}()
+	}
+	wg.Wait()
+	_ = conn.Close()
+	_ = srv.Close()
+	_ = cli.Close()
+	return
+}
+
+func c06Tie(r *Run) {
+	t := extractConnTable()
+	if t.Err != "" {
+		return
+	}
+	predicted := map[string]bool{}
+	for _, n := range t.Nodes {
+		if n.Kind == "unlock" && !t.Mus[n.M].Once && t.Entries[n.Entry].Readme {
+			predicted[baseFunc(siteFunc(n.Site))] = true
+		}
+	}
+	old := runtime.SetMutexProfileFraction(1)
+	observed := map[string]int{}
+	var submits int32
+	for attempt := 0; attempt < 3; attempt++ {
+		submits += contentionWorkload(time.Duration(150*(attempt+1)) * time.Millisecond)
+		recs := make([]runtime.BlockProfileRecord, 4096)
+		n, _ := runtime.MutexProfile(recs)
+		for _, rec := range recs[:n] {
+			frames := runtime.CallersFrames(rec.Stack())
+			sawUnlock := false
+			for {
+				f, more := frames.Next()
+				if strings.HasPrefix(f.Function, "sync.(*Mutex).Unlock") || strings.HasPrefix(f.Function, "sync.(*RWMutex).Unlock") ||
+					strings.HasPrefix(f.Function, "sync.(*RWMutex).RUnlock") || strings.HasPrefix(f.Function, "sync.(*Mutex).unlockSlow") || strings.HasPrefix(f.Function, "sync.(*RWMutex).rUnlockSlow") {
+					sawUnlock = true
+				} else if sawUnlock && !strings.HasPrefix(f.Function, "sync.") && !strings.HasPrefix(f.Function, "runtime.") && !strings.HasPrefix(f.Function, "internal/") {
+					if strings.HasPrefix(f.Function, libPrefix+".") { // the root package only (pdu has no locks of Conn)
+						observed[baseFunc(f.Function)] += int(rec.Count)
+					}
+					break
+				}
+				if !more {
+					break
+				}
+			}
+		}
+		missing := 0
+		for p := range predicted {
+			if observed[p] == 0 {
+				missing++
+			}
+		}
+		if missing == 0 {
+			break
+		}
+	}
+	runtime.SetMutexProfileFraction(old)
+	var ps []string
+	for p := range predicted {
+		ps = append(ps, p)
+	}
+	sort.Strings(ps)
+	for _, p := range ps {
+		if observed[p] > 0 {
+			r.Count("tie/unlock observed in "+p, true, "tie/predicted-unlock-observed-under-contention")
+		} else {
+			r.Count("tie/unlock not observed in "+p, false, "tie/predicted-unlock-not-contended-in-this-run")
+			r.Notes = append(r.Notes, fmt.Sprintf("tie: the table predicts an Unlock in %s; no contended Unlock was recorded there in this run (contention cannot be forced; not a verdict)", p))
+		}
+	}
+	for o, c := range observed {
+		if !predicted[o] {
+			r.Notes = append(r.Notes, fmt.Sprintf("tie: the running library unlocked a contended mutex in %s (%d times) but the extracted table has no unlock node there: the extraction missed a lock operation; the static verdict of this run is unreliable, the dynamic evidence stands", o, c))
+		}
+	}
+	r.Sample(map[string]interface{}{"tie": "mutex-contention profile", "submits": submits, "predicted_unlock_functions": ps, "observed_contended_unlocks": observed})
+}
